@@ -702,7 +702,11 @@ class HttpProxyPlugin(HttpProtocolHandlerPlugin):
                     key,
                     upstream_subject.get(keys[key]),
                 )
-        alt_subj_names = [text_(self.request.host)]
+        # IPv6 literals carry their brackets in request.host
+        alt_subj_name = text_(self.request.host)
+        if alt_subj_name.startswith('[') and alt_subj_name.endswith(']'):
+            alt_subj_name = alt_subj_name[1:-1]
+        alt_subj_names = [alt_subj_name]
         validity_in_days = 365 * 2
         timeout = 10
 
